@@ -459,9 +459,17 @@ const subDomainNum = 4
 // prefix filter.
 func hashableSubdomains(domain string) (sub []string) {
 	pubSuf, icann := publicsuffix.PublicSuffix(domain)
-	if !icann {
-		// Check the full private domain space.
-		pubSuf = ""
+	for !icann {
+		// Check the full private domain space, but still exclude the ICANN
+		// suffix under the private one, if any.
+		i := strings.IndexByte(pubSuf, '.')
+		if i < 0 {
+			pubSuf = ""
+
+			break
+		}
+
+		pubSuf, icann = publicsuffix.PublicSuffix(pubSuf[i+1:])
 	}
 
 	dotsNum := 0
